@@ -97,6 +97,8 @@ func init() {
 		"strings.HasPrefix":          stringsHasPrefix,
 		"strings.Split":              stringsSplit,
 		"strings.SplitN":             stringsSplit,
+		"sort.Slice":                 sortSlice,
+		"sort.SliceStable":           sortSlice,
 		"bytes.Compare":              bytesCompare,
 		"bytes.IndexByte":            bytesIndexByte,
 		"bytes.LastIndexByte":        bytesLastIndexByte,
@@ -394,6 +396,43 @@ func stringsSplit(e *Exec, g *Goroutine, fn *ssa.Function, a []Value) (Value, bo
 	}
 	n := e.tt.Const(64, uint64(len(parts)))
 	return SliceV{arr: Ptr{obj: e.newObj(nil, arr, "strings.Split")}, off: e.tt.Const(64, 0), ln: n, cp: n}, false
+}
+
+// sortSlice models sort.Slice / sort.SliceStable by their contract: the result is sorted with
+// respect to less; for sort.Slice elements that compare equal may end up in either order
+// (a nondeterministic choice), exactly what the documentation leaves open.
+func sortSlice(e *Exec, g *Goroutine, fn *ssa.Function, a []Value) (Value, bool) {
+	iv := a[0].(IfaceV)
+	sl, ok := iv.v.(SliceV)
+	if !ok {
+		panic(mkEnd("unsupported", "sort.Slice of a non-slice"))
+	}
+	less := a[1].(FuncV)
+	if sl.arr.obj == nil {
+		return nil, false
+	}
+	off, n := e.sliceConcrete(sl, "sort.Slice")
+	get, _ := locate(sl.arr)
+	arr := get().(*ArrayV)
+	stable := fn.Name() == "SliceStable"
+	call := func(i, j int) bool {
+		var r Value
+		e.callSync(g, less, []Value{e.tt.Const(64, uint64(i)), e.tt.Const(64, uint64(j))}, func(v Value) { r = v })
+		return e.branch(r.(*Term))
+	}
+	for i := 1; i < n; i++ {
+		for j := i; j > 0; j-- {
+			swap := call(j, j-1)
+			if !swap && !stable && !call(j-1, j) {
+				swap = e.choose(2) == 1 // equal elements: order unspecified
+			}
+			if !swap {
+				break
+			}
+			arr.e[off+j], arr.e[off+j-1] = arr.e[off+j-1], arr.e[off+j]
+		}
+	}
+	return nil, false
 }
 
 // sliceTerms returns the element terms of a byte slice after concretising its offset and
